@@ -436,15 +436,27 @@ def Consistent (inp : Input) : Prop := inp.groups ≠ [] ∧ ∀ g ∈ inp.group
 
 instance (inp : Input) : Decidable (Consistent inp) := by unfold Consistent; exact inferInstance
 
-/-- exclusion bounds advertised by `BatteryManager._get_bounds` -/
-def advertisedExcl (gs : List Group) : Rat × Rat :=
+/-- exclusion bounds ENFORCED by `BatteryManager._get_bounds` / `_check_request` (weaker than the advertised ones) -/
+def enforcedExcl (gs : List Group) : Rat × Rat :=
   (advExclLower (sumL (gs.map fun g => (aggregate g.bats).el)) (sumL ((gs.flatMap (·.invs)).map (·.el))),
    advExclUpper (sumL (gs.map fun g => (aggregate g.bats).eu)) (sumL ((gs.flatMap (·.invs)).map (·.eu))))
 
-/-- "non-zero request that the pool's advertised bounds admit" (`_check_request`, `adjust_power=True`). -/
+/-- exclusion bounds the battery pool ADVERTISES (`PowerBoundsCalculator.calculate`): per battery set the
+larger of the aggregated battery bound and the sum of its inverters' bounds, summed over the sets -/
+def advertisedExcl (gs : List Group) : Rat × Rat :=
+  (sumL (gs.map fun g => poolGroupExclLower (aggregate g.bats).el (sumL (g.invs.map (·.el)))),
+   sumL (gs.map fun g => poolGroupExclUpper (aggregate g.bats).eu (sumL (g.invs.map (·.eu)))))
+
+/-- "non-zero request that the pool's advertised bounds admit (|power| >= advertised exclusion bound)". -/
 def Admitted (inp : Input) : Prop :=
   ¬ zeroRequest inp.power ∧
   ¬ rejectedAdjust (advertisedExcl inp.groups).1 inp.power (advertisedExcl inp.groups).2
+
+/-- what `BatteryManager._check_request` (adjust_power = True) lets through -/
+def ManagerAdmits (inp : Input) : Prop :=
+  zeroRequest inp.power ∨ ¬ rejectedAdjust (enforcedExcl inp.groups).1 inp.power (enforcedExcl inp.groups).2
+
+instance (inp : Input) : Decidable (ManagerAdmits inp) := by unfold ManagerAdmits; exact inferInstance
 
 instance (inp : Input) : Decidable (Admitted inp) := by unfold Admitted; exact inferInstance
 
